@@ -60,19 +60,20 @@ Definition ntlm_from_hash (domain user : list N) (hash : bytes) : ntlm :=
 Definition create_negotiate_message : outcome bytes :=
   to_vec p (negotiate_message_l client_negotiate_flags).
 
-(* get_payload_field: offset = message.length() - payload.len(); start = buffer_offset - offset
-   (usize underflow: panic, or a wrapped start that the slice rejects); &payload[start..start+length] *)
+(* get_payload_field (repaired, C07 #13): offset = message.length() - payload.len();
+   start = buffer_offset.checked_sub(offset), end = start.checked_add(length), end <= payload.len(),
+   otherwise Err InvalidSize; &payload[start..end] *)
 Definition get_payload_field (m : msg) (length buffer_offset : N) : outcome bytes :=
   obind (cast_bytes (get m "Payload")) (fun payload =>
   match mlength p m with
   | None => Panic
   | Some total =>
       let offset := total - nlen payload in
-      if buffer_offset <? offset then Panic
+      if buffer_offset <? offset then Err EInvalidSize
       else let start := buffer_offset - offset in
            if start + length <=? nlen payload
            then Ok (firstn (N.to_nat length) (skipn (N.to_nat start) payload))
-           else Panic
+           else Err EInvalidSize
   end).
 
 (* read_target_info: av_pair after av_pair until MsvAvEOL; ids outside 0..10 are refused *)
@@ -109,7 +110,7 @@ Definition read_challenge_message (st : ntlm) (negotiate request client_challeng
       obind (get_payload_field m til tio) (fun target_name =>
       obind (read_target_info (S (List.length target_name)) target_name []) (fun target_info =>
       match av_find 7 target_info with
-      | None => Panic                                      (* panic!("no timestamp available") *)
+      | None => Err EInvalidData                           (* repaired (C07 #12): was panic!("no timestamp available") *)
       | Some timestamp =>
           let '(nt, lm, session_base_key) :=
             compute_response_v2 (n_key_nt st) (n_key_lm st) server_challenge client_challenge timestamp target_name in
